@@ -183,7 +183,7 @@ Proof.
 Qed.
 
 Lemma ip6_agrees c b f :
-  bytes_ok b -> N.of_nat (List.length b) < 65536 ->
+  bytes_ok b -> (fx_ip6 (c_fx c) = false -> N.of_nat (List.length b) < 65536) ->
   f_offP f = 14%nat -> (14 <= List.length b)%nat ->
   let pkt := skipn 14 b in
   (fx_ip6 (c_fx c) = false -> ~ ((40 <= List.length pkt)%nat /\ (40 + N.to_nat (word_at pkt 4) < List.length pkt)%nat)) ->
@@ -208,7 +208,7 @@ Proof.
   { destruct (fx_ip6 (c_fx c)) eqn:Ef.
     - destruct (Nat.leb_spec (N.to_nat (word_at pkt 4) + 40) (List.length pkt));
       destruct (Nat.ltb_spec (List.length pkt) (40 + N.to_nat (word_at pkt 4))); try lia; reflexivity.
-    - unfold u16. specialize (Hk eq_refl).
+    - unfold u16. specialize (Hk eq_refl). specialize (Hn eq_refl).
       destruct (N.eqb_spec ((word_at pkt 4 + 40) mod 65536) (N.of_nat (List.length pkt))) as [E|E];
       destruct (Nat.ltb_spec (List.length pkt) (40 + N.to_nat (word_at pkt 4))); try reflexivity; try lia;
       exfalso; apply Hk; split; lia. }
@@ -292,7 +292,7 @@ Proof.
 Qed.
 
 Theorem eq_ref_canon c b :
-  bytes_ok b -> N.of_nat (List.length b) < 65536 -> known_C02 (c_fx c) b = None ->
+  bytes_ok b -> (fx_ip6 (c_fx c) = false -> N.of_nat (List.length b) < 65536) -> known_C02 (c_fx c) b = None ->
   agrees (parse c (cs b)) (ref_decode b).
 Proof.
   intros Hb Hn Hk. apply known_C02_none in Hk. destruct Hk as (Ki & Kt & K6 & Ktcp).
@@ -369,7 +369,7 @@ Proof.
         destruct (Nat.leb_spec 14 (List.length b)); [|lia]. cbn [negb andb] in K6. change (34525 =? 34525) with true in K6. cbn [andb] in K6.
         destruct (Nat.leb_spec 40 (List.length b - 14)); [|lia]. cbn [andb] in K6.
         destruct (Nat.ltb_spec (40 + N.to_nat (word_at b 18)) (List.length b - 14)); [discriminate|].
-        unfold u16. apply N.eqb_eq. rewrite N.mod_small by lia. lia. }
+        specialize (Hn eq_refl). unfold u16. apply N.eqb_eq. rewrite N.mod_small by lia. lia. }
   destruct (N.eqb_spec et 2054) as [E3|E3].
   { rewrite E3. cbn [N.eqb orb Nat.add]. change (2054 =? 33024) with false. change (2054 =? 34984) with false.
     change (2054 =? 2048) with false. change (2054 =? 34525) with false. change (2054 =? 2054) with true. cbn [orb Nat.add].
@@ -408,14 +408,21 @@ Qed.
 
 (* Parse = reference decoder on the projected observables, for every well-formed slice (any capacity, any
    spare contents, any session configuration) outside the six recorded classes *)
-Theorem parse_eq_ref_partial c s :
-  wf s -> bytes_ok (view s) -> N.of_nat (len s) < 65536 -> known_C02 (c_fx c) (view s) = None ->
+(* general form: the length bound is needed only for the ORIGINAL IP6.IsValid (uint16 wrap of PayloadLen+40) *)
+Theorem parse_eq_ref_partial_g c s :
+  wf s -> bytes_ok (view s) -> (fx_ip6 (c_fx c) = false -> N.of_nat (len s) < 65536) ->
+  known_C02 (c_fx c) (view s) = None ->
   agrees (parse c s) (ref_decode (view s)).
 Proof.
   intros Hwf Hb Hn Hk.
   rewrite (parse_canon c s Hwf). change (of_bytes (view s)) with (cs (view s)).
   apply eq_ref_canon; auto. rewrite (view_length s Hwf). exact Hn.
 Qed.
+
+Theorem parse_eq_ref_partial c s :
+  wf s -> bytes_ok (view s) -> N.of_nat (len s) < 65536 -> known_C02 (c_fx c) (view s) = None ->
+  agrees (parse c s) (ref_decode (view s)).
+Proof. intros Hwf Hb Hn Hk. apply parse_eq_ref_partial_g; auto. Qed.
 
 Example parse_eq_ref_nonvacuous :
   let s := of_bytes_cap ex_arp28 [170;170] in
@@ -482,3 +489,12 @@ Theorem parse_eq_ref_current c s :
   wf s -> bytes_ok (view s) -> N.of_nat (len s) < 65536 ->
   agrees (parse c s) (ref_decode (view s)).
 Proof. intros Hf. apply parse_eq_ref_repaired. rewrite Hf. reflexivity. Qed.
+
+(* the code in force, every length: no bound on the frame size is left *)
+Theorem parse_eq_ref_full c s :
+  c_fx c = current_fixes -> wf s -> bytes_ok (view s) -> agrees (parse c s) (ref_decode (view s)).
+Proof.
+  intros Hf Hwf Hb. apply parse_eq_ref_partial_g; auto.
+  - rewrite Hf. cbn. discriminate.
+  - rewrite Hf. apply known_none_when_repaired.
+Qed.
